@@ -8,6 +8,7 @@ package c05
 
 import (
 	"fmt"
+	"github.com/inbucket/inbucket/v3/pkg/extension/event"
 	"regexp"
 	"sort"
 	"strings"
@@ -236,6 +237,19 @@ func sessionCase(c *fw.Ctx, r *fw.Rand) {
 	if err != nil {
 		panic(err)
 	}
+	// In a quarter of the sessions an extension explicitly allows every recipient whose local
+	// part starts with "al": that overrides the domain lists, but the recipient limit (and the
+	// store rule) still apply.
+	allowExt := r.Chance(1, 4)
+	if allowExt {
+		env.ExtHost.Events.BeforeRcptToAccepted.AddListener("c05-allow", func(s event.SMTPSession) *event.SMTPResponse {
+			if n := len(s.To); n > 0 && strings.HasPrefix(s.To[n-1].Address, "al") {
+				return &event.SMTPResponse{Action: event.ActionAllow}
+			}
+			return nil
+		})
+		c.Count("sessions_with_allowing_extension", 1)
+	}
 	ss := env.StartSMTP()
 	defer func() {
 		if !ss.Ended() && !ss.Close() {
@@ -244,6 +258,7 @@ func sessionCase(c *fw.Ctx, r *fw.Rand) {
 	}()
 	fail := func(key, what string) {
 		d := m.describe()
+		d["allowing_extension"] = allowExt
 		d["trace"] = ss.Trace
 		c.Violation(key, what, d)
 	}
@@ -317,12 +332,28 @@ func sessionCase(c *fw.Ctx, r *fw.Rand) {
 		}
 		// RCPTs
 		type rc struct{ local, domain string }
-		var accepted []rc
+		var accepted, tried []rc
 		nr := r.Range(1, m.Max+3)
 		for k := 0; k < nr; k++ {
 			uniq++
 			local := fmt.Sprintf("r%dx%s", uniq, r.Letters(r.Range(0, 3), letters))
+			if allowExt && r.Chance(1, 2) {
+				local = "al" + local
+			}
 			dom := sessionDomain(r, m)
+			if len(tried) > 0 && r.Chance(1, 3) {
+				// Same local part as an earlier recipient of this transaction but another domain:
+				// under local naming both name the same mailbox; the store rule is per recipient.
+				prev := tried[r.Intn(len(tried))]
+				for n := 0; n < 6 && strings.EqualFold(dom, prev.domain); n++ {
+					dom = sessionDomain(r, m)
+				}
+				if !strings.EqualFold(dom, prev.domain) {
+					local = prev.local
+					c.Count("rcpt_sharing_a_mailbox", 1)
+				}
+			}
+			tried = append(tried, rc{local, dom})
 			line := "RCPT TO:<" + local + "@" + dom + ">"
 			rep, err := ss.Cmd(line)
 			if err != nil {
@@ -335,6 +366,10 @@ func sessionCase(c *fw.Ctx, r *fw.Rand) {
 				return
 			}
 			polOK := m.accepts(dom)
+			if allowExt && strings.HasPrefix(local, "al") {
+				polOK = true
+				c.Count("rcpt_allowed_by_extension", 1)
+			}
 			room := len(accepted) < m.Max
 			want := polOK && room
 			if (cls == 2) != want {
@@ -400,17 +435,24 @@ func sessionCase(c *fw.Ctx, r *fw.Rand) {
 			fail("C05:store-unreadable", err.Error())
 			return
 		}
+		owed := map[string]int{} // mailbox -> copies the store rule demands
+		for _, a := range accepted {
+			if m.stores(a.domain) {
+				owed[strings.ToLower(a.local)]++
+			}
+		}
 		for _, a := range accepted {
 			want := m.stores(a.domain)
-			got := len(snap[strings.ToLower(a.local)])
+			box := strings.ToLower(a.local)
+			got := len(snap[box])
 			switch {
-			case want && got != 1:
+			case got < owed[box]:
 				fail(fmt.Sprintf("C05:not-stored-against-policy:default=%v", m.DefStore),
-					fmt.Sprintf("recipient %s@%s accepted and the store rule says store, mailbox holds %d messages", a.local, a.domain, got))
+					fmt.Sprintf("recipient %s@%s accepted; the store rule owes mailbox %q %d copies (per recipient), it holds %d", a.local, a.domain, box, owed[box], got))
 				return
-			case !want && got != 0:
+			case got > owed[box]:
 				fail(fmt.Sprintf("C05:stored-against-policy:default=%v", m.DefStore),
-					fmt.Sprintf("recipient %s@%s accepted and the store rule says discard, mailbox holds %d messages", a.local, a.domain, got))
+					fmt.Sprintf("recipient %s@%s accepted; the store rule owes mailbox %q %d copies (per recipient), it holds %d", a.local, a.domain, box, owed[box], got))
 				return
 			case want:
 				stored++
